@@ -603,6 +603,12 @@ def main():
         VR.add_block(run, "contracts.dofmap_blocks", blk)
     for gname in ("screen2", "octa", "two_tets_face") + (("screen3", "cube12") if thorough else ()):
         run.add("_p1_selection_block::native[%s]" % gname, "bounded", ob_p1_selection_native, gname)
+    run.add("_p1_selection_block::canary", "cover", VR.ob_block_canary, "contracts.dofmap_blocks", "_p1_selection_block",
+            [("not support[n]", "support[n]"), ("include_boundary_dofs or node_is_interior", "include_boundary_dofs and node_is_interior"),
+             ("(not truncate_at_segment_edge) and include_boundary_dofs", "truncate_at_segment_edge and include_boundary_dofs"),
+             ("local2global[en, other_local_index] = vertex", "local2global[en, other_local_index] = en"),
+             (" and (not grid_data_vertex_on_boundary[vertex])", ""),
+             ("len(non_support_neighbors) > 0 and", "len(non_support_neighbors) > 0 and (not grid_data_vertex_on_boundary[vertex]) and")])
     # nested helper of _compute_p1_dof_map, assumed by the selection block at its call site
     VR.add_function(run, "bempp_cl.api.space.scalar_spaces", "_compute_p1_dof_map::find_index", "contracts.p1_helpers",
                     [{"array": [3, 1, 2], "value": 2}, {"array": [3, 1, 2], "value": 7}, {"array": [5, 5], "value": 5}])
